@@ -251,6 +251,17 @@ def ob_altered_shred_dropped_first(run, oid):
     return o
 
 
+def ob_flag_callers(run, oid):
+    """flag and announcement go together"""
+    prog = run.program("lib")
+    o = run.ob(oid, "SlotBlockData::mark_leader_misbehaved is called by flag_leader_misbehavior only (which announces InvalidBlock on the first transition)",
+               "a silent flag swallows the report: the next flag attempt finds it set and announces nothing - equivocation is detected and never reported", floor=1)
+    cal = prog.callers_of(SLOTBD + "::mark_leader_misbehaved")
+    bad = sorted(set(fshort(K.root_fn(c.body.defpath)) for c in cal if not K.root_fn(c.body.defpath).endswith("flag_leader_misbehavior")))
+    o.check(bool(cal) and not bad, "mark_leader_misbehaved|only-through-flag_leader_misbehavior", "the only caller is flag_leader_misbehavior", "", {"other callers": bad})
+    return o
+
+
 def ob_error_mapping(run, oid):
     """which decoder failure becomes which DeshredError: only 'not enough shreds yet' may become the error the blockstore waits on"""
     from engine import paths as P_
@@ -287,6 +298,8 @@ def ob_error_mapping(run, oid):
 def check(run):
     ob_error_mapping(run, "O13.11")
     ob_flag_exact(run, "O13.12")
+    from . import C12 as _C12e
+    _C12e.ob_door_equivocation_reported(run, "O13.15")
     ob_altered_shred_dropped_first(run, "O13.13")
     # "for every block a correct leader disseminates ... reconstructs exactly that block": the decoder of a slice's transactions admits every count a slice can encode
     from . import C19 as _C19d
@@ -348,6 +361,11 @@ def check(run):
             if before and returned and ws:
                 outs = {(True, False), (False, True)}
         o.check(outs == {(True, False), (False, True)}, "mark_leader_misbehaved|returns-newly", "returns true exactly when the flag was newly set", b.span, {"table": sorted(outs)})
+    # the flag and the announcement go together: the only caller of mark_leader_misbehaved is flag_leader_misbehavior, which announces InvalidBlock on the first transition
+    # (a silent flag swallows the report: later flag attempts find it set and announce nothing)
+    cal = prog.callers_of(SLOTBD + "::mark_leader_misbehaved")
+    bad_callers = sorted(set(fshort(K.root_fn(c.body.defpath)) for c in cal if not K.root_fn(c.body.defpath).endswith("flag_leader_misbehavior")))
+    o.check(bool(cal) and not bad_callers, "mark_leader_misbehaved|only-through-flag_leader_misbehavior", "mark_leader_misbehaved is called by flag_leader_misbehavior only", "", {"other callers": bad_callers})
     for fb in prog.family(IMPL + "flag_leader_misbehavior") + prog.family(BS + "BlockstoreImpl::flag_leader_misbehavior"):
         for (bb, rv, sp, dst) in fb.aggregates(BS + "BlockstoreEvent", "InvalidBlock"):
             g = [a for a in G.guard_atoms(fb, bb, prog) if a[0] == "bool" and a[2] is True and K.mentions_call(a[1][0], "mark_leader_misbehaved")]
